@@ -623,6 +623,26 @@ Section GC.
       rewrite <- Hmap. apply Permutation_map. apply Permutation_sym. apply gs_perm.
     Qed.
 
+    (* what is stored: column numbers below col_size, row numbers below row_size, pointers up to nnz *)
+    Lemma from_coo_nd_bounds :
+      Forall (fun i => 0 <= i < cs) (g_indices (gcxs_from_coo c ca))
+      /\ Forall (fun r => 0 <= r < rs) (row_numbers (g_indptr (gcxs_from_coo c ca)))
+      /\ Forall (fun p => 0 <= p <= Z.of_nat (length (c_data c))) (g_indptr (gcxs_from_coo c ca)).
+    Proof.
+      rewrite from_coo_nf. cbn [g_indices g_indptr]. split; [|split].
+      - rewrite Forall_map. apply Forall_forall. intros p Hp. apply rowf_colf. exact Hp.
+      - rewrite rows_roundtrip. apply rows_in_range.
+      - unfold indptr_of.
+        assert (Hn : zsum (bincount (map rowf s) rs) = Z.of_nat (length (c_data c))).
+        { rewrite zsum_bincount by (try apply rows_sorted; apply rows_in_range).
+          rewrite map_length. unfold s, gsorted. rewrite stable_sort_length, combine_length, map_length.
+          destruct Hc as [_ [_ Hl]]. lia. }
+        pose proof (cumsum_bounds (bincount (map rowf s) rs) 0) as Hb. rewrite Hn in Hb.
+        eapply Forall_impl; [|apply Hb].
+        + intros p Hp. simpl in Hp. lia.
+        + unfold bincount. rewrite Forall_map. apply Forall_forall. intros; apply count_z_nonneg.
+    Qed.
+
     Lemma from_coo_nd_den ix : gden (gcxs_from_coo c ca) ix = den c ix.
     Proof.
       unfold gden, den. cbn [c_fill gcxs_as_coo].
